@@ -23,8 +23,11 @@ def recording_uuid(key: str) -> str:
 def norm_dir(path):
     if path is None:
         return None
-    stripped = path.rstrip("/")
-    return stripped if stripped else "/"
+    # pathlib's reading of a directory name: repeated separators and "."
+    # segments mean nothing ("/a//b/./c/" is "/a/b/c"); ".." is not generated
+    lead = "/" if path.startswith("/") else ""
+    parts = [p for p in path.split("/") if p not in ("", ".")]
+    return (lead + "/".join(parts)) or lead or "."
 
 
 def is_inside(path: str, audio_dir: str) -> bool:
